@@ -1013,9 +1013,9 @@ class Fxp():
                 self.vdtype = vdtype
         else:
             self.vdtype = original_vdtype
-        if index is not None and getattr(self.val, 'dtype', np.dtype(int)).kind == 'c' and self.vdtype != complex \
+        if (index is not None or raw) and getattr(self.val, 'dtype', np.dtype(int)).kind == 'c' and self.vdtype != complex \
                 and not np.issubdtype(self.vdtype if self.vdtype is not None else int, np.complexfloating):
-            self.vdtype = complex   # (a real value written by index into a complex object: the object stays complex)
+            self.vdtype = complex   # (a real value written by index into a complex object, complex raw codes written into a real typed one: the object is complex)
         if self.vdtype is not None and self.vdtype != complex and np.issubdtype(self.vdtype, np.integer) and self.n_frac > 0:
             self.vdtype = float  # change to float type if Fxp has fractional part (also when a raw value is set)
 
